@@ -74,6 +74,8 @@ type Exec struct {
 	nMerges    int
 	nVCunsat   int
 	nVCconst   int
+	nVCsubsumed int
+	proved     map[int][][]int // bad-term id -> path conditions (conjunct ids) under which it was proved impossible
 	funcsSeen  map[string]bool
 	stubsSeen  map[string]bool
 	depth      int
@@ -228,18 +230,25 @@ func (ex *Exec) vc(st *State, kind, site string, bad *Term) {
 		ex.assume(st, ex.tb.Not(bad))
 		return
 	}
-	v := &VC{Kind: kind, Site: site, Harness: ex.harness}
-	ex.vcs = append(ex.vcs, v)
-	if debugVC {
-		fmt.Printf("VC %s %s\n", kind, site)
-	}
-	pc := ex.pcTerm(st)
 	var kn []knownPred
 	for _, k := range ex.known {
 		if strings.Contains(site, k.site) && ex.knownOK[k.id] {
 			kn = append(kn, k)
 		}
 	}
+	if len(kn) == 0 && ex.subsumed(st, bad) {
+		// the same condition was proved impossible under a subset of the
+		// current path condition (e.g. the nil check of a pointer that has
+		// already been dereferenced on this path)
+		ex.nVCsubsumed++
+		return
+	}
+	v := &VC{Kind: kind, Site: site, Harness: ex.harness}
+	ex.vcs = append(ex.vcs, v)
+	if debugVC {
+		fmt.Printf("VC %s %s\n", kind, site)
+	}
+	pc := ex.pcTerm(st)
 	// exclude known-finding inputs first: anything outside them is a violation
 	conj := []*Term{pc, bad}
 	for _, k := range kn {
@@ -250,6 +259,9 @@ func (ex *Exec) vc(st *State, kind, site string, bad *Term) {
 	switch r {
 	case "unsat":
 		ex.nVCunsat++
+		if len(kn) == 0 {
+			ex.recordProved(st, bad)
+		}
 	case "sat":
 		v.Model = mdl
 		ex.violations = append(ex.violations, v)
@@ -269,6 +281,42 @@ func (ex *Exec) vc(st *State, kind, site string, bad *Term) {
 		ex.restrictions++
 		ex.assume(st, ex.tb.Not(bad))
 	}
+}
+
+func (ex *Exec) recordProved(st *State, bad *Term) {
+	if ex.proved == nil {
+		ex.proved = map[int][][]int{}
+	}
+	ids := make([]int, len(st.pc))
+	for i, c := range st.pc {
+		ids[i] = c.id
+	}
+	l := ex.proved[bad.id]
+	if len(l) >= 8 {
+		l = l[1:]
+	}
+	ex.proved[bad.id] = append(l, ids)
+}
+
+func (ex *Exec) subsumed(st *State, bad *Term) bool {
+	l := ex.proved[bad.id]
+	if len(l) == 0 {
+		return false
+	}
+	cur := make(map[int]bool, len(st.pc))
+	for _, c := range st.pc {
+		cur[c.id] = true
+	}
+next:
+	for _, ids := range l {
+		for _, id := range ids {
+			if !cur[id] {
+				continue next
+			}
+		}
+		return true
+	}
+	return false
 }
 
 // decide answers a verification query: the incremental primary solver gets a
